@@ -289,17 +289,15 @@ Definition restore_active (s : storage) : storage * option err :=
   | Some _ => (s, Some EActiveBlobExists)
   | None =>
     match pop_last (s_closed s) with
-    | Some (b, c) => (upd_active (upd_closed s c) (Some b), None)
+    | Some (b, c) => (upd_active (upd_closed s c) (Some (blob_load_index b)), None)   (* index loaded as in pop_active *)
     | None => (s, Some EUninitialized)
     end
   end.
 
-(* observer worker: a message whose processing fails terminates the worker (panic!) *)
+(* observer worker: a background request that fails (inapplicable in the current state, or an I/O error) is logged
+   where it occurs; the worker carries on (before commit 62103db of the code it panicked: finding F1) *)
 Definition worker (s : storage) (f : storage -> storage * option err) : storage :=
-  if s_alive s then
-    let '(s', e) := f s in
-    match e with Some _ => upd_alive s' false | None => s' end
-  else s.
+  if s_alive s then fst (f s) else s.
 
 Definition request_dump (s : storage) : storage := if s_alive s then upd_dump_req s true else s.
 
@@ -389,10 +387,10 @@ Definition do_delete (s : storage) (k ts : N) (meta : option N) (msize : N) (oip
 Definition counts (s : storage) : out :=
   let det_closed := map (fun b => (b_id b, imap_count (b_idx b))) (closed_blobs s) in
   let det := det_closed ++ match s_active s with
-                           | Some b => [(N.of_nat (length (s_closed s)), imap_count (b_idx b))]
+                           | Some b => [(b_id b, imap_count (b_idx b))]
                            | None => [] end in
   RCounts (fold_left (fun a p => a + snd p) det 0) det (active_count s)
-          (N.of_nat (length (s_closed s)) + match s_active s with Some _ => 1 | None => 0 end)
+          (N.of_nat (length (closed_blobs s)) + match s_active s with Some _ => 1 | None => 0 end)
           (s_next s) (s_corrupted s) (match s_active s with Some _ => true | None => false end).
 
 (* ---- restart: Storage::close, then Storage::init / init_lazy on the same directory ---- *)
